@@ -278,6 +278,9 @@ func VerifSession() {
 		k := len(vScript[0]) + 2 // exactly at a line boundary
 		w = mkWire(stream[:k], stream[k:])
 	}
+	// should the client ever set a read deadline: the server falls silent once, in the middle of the
+	// second line, for longer than that deadline (a timeout is reported), then carries on
+	w.stallAt = len(vScript[0]) + 2 + 5
 	d := &vDialer{wire: w}
 	vInstallDialer(d)
 	cfg := NewConfig("me")
